@@ -41,6 +41,35 @@ func buildNativeOverlay(repo, harnessDir, pkgDir, tmp string) (string, error) {
 		for _, m := range harnessFuncRe.FindAllStringSubmatch(string(src), -1) {
 			harnesses = append(harnesses, m[1])
 		}
+		// environment-model interceptions: rename the original function so
+		// that the harness's *_native.go wrapper takes its place
+		for _, m := range regexp.MustCompile(`(?m)^//verif:intercept (\S+)=(\w+)`).FindAllStringSubmatch(string(src), -1) {
+			full := m[1]
+			i := strings.LastIndex(full, ".")
+			if i < 0 || full[:i] != ModulePath+"/"+pkgDir {
+				continue
+			}
+			fname := full[i+1:]
+			rents, _ := os.ReadDir(filepath.Join(repo, pkgDir))
+			for _, re := range rents {
+				if !strings.HasSuffix(re.Name(), ".go") || strings.HasSuffix(re.Name(), "_test.go") {
+					continue
+				}
+				rp := filepath.Join(repo, pkgDir, re.Name())
+				rsrc, err := os.ReadFile(rp)
+				if err != nil {
+					continue
+				}
+				needle := "\nfunc " + fname + "("
+				if !strings.Contains(string(rsrc), needle) {
+					continue
+				}
+				mod := strings.Replace(string(rsrc), needle, "\nfunc "+fname+"_verifOrig(", 1)
+				mp := filepath.Join(tmp, "orig_"+re.Name())
+				os.WriteFile(mp, []byte(mod), 0o644)
+				replace[rp] = mp
+			}
+		}
 	}
 	if pkgName == "" {
 		return "", fmt.Errorf("no harness files in %s", hd)
